@@ -221,6 +221,13 @@ def run(chk):
         return "three stores advanced once; space-time batches built from the three draws"
     chk.run("C09.R3", f"{MOD}:CubicMeshPDENonStatio.get_batch", {}, go_ns, construct="CubicMeshPDENonStatio.get_batch")
 
+    # ---------------- R4: generators built by their constructors without RAR serve the whole store per epoch, whatever
+    # start count the caller passed (documented as used by the RAR scheme only)
+    chk.rule("C09.R4", "a generator constructed without RAR parameters reshuffles iff index + batch size >= full number of "
+                       "rows, also when the caller supplied n_start / nt_start (state produced by the repository's "
+                       "constructor, index and stores made symbolic afterwards)", floor=5)
+    run_constructed_no_rar(chk, G, "C09.R4")
+
     chk.rule("C09.R2", "the initial index of every store forces a reshuffle at the first draw and index + batch size cannot "
                        "overflow int32 (generators built through the repository's constructors, three size assignments)", floor=20)
     run_initial_index(chk, G, "C09.R2")
@@ -257,6 +264,41 @@ def initial_index_rule(G, sizes):
     pa = G.cls("DataGeneratorParameter")(key, 36, bp, {"nu": (K('lo'), K('hi'))})
     out.append(("DataGeneratorParameter", "curr_param_idx[nu]", bp, 36, pa.fields['curr_param_idx']['nu']))
     return out
+
+
+def run_constructed_no_rar(chk, G, rule_id):
+    key = Sym('key')
+    box = dict(min_pts=(K('min0'), K('min1')), max_pts=(K('max0'), K('max1')))
+
+    def mk_ode(**kw):
+        return G.cls("DataGeneratorODE")(key, 60, K('tmin'), K('tmax'), 7, **kw)
+
+    def mk_st(**kw):
+        return G.cls("CubicMeshPDEStatio")(key=key, n=64, nb=48, omega_batch_size=5, omega_border_batch_size=3, dim=2,
+                                           **box, **kw)
+
+    def mk_ns(**kw):
+        return G.cls("CubicMeshPDENonStatio")(key=key, n=64, nb=48, omega_batch_size=5, omega_border_batch_size=3, dim=2,
+                                              temporal_batch_size=7, tmin=K('tmin'), tmax=K('tmax'), nt=60, **box, **kw)
+    cases = [
+        ("DataGeneratorODE", mk_ode, {"nt_start": 20}, 'temporal_batch', ('key', 'times', 'curr_time_idx'), 7, 60, (7,)),
+        ("CubicMeshPDEStatio", mk_st, {"n_start": 16}, 'inside_batch', ('key', 'omega', 'curr_omega_idx'), 5, 64, (5, 2)),
+        ("CubicMeshPDEStatio", mk_st, {"n_start": 16}, 'border_batch', ('key', 'omega_border', 'curr_omega_border_idx'), 3, 12,
+         (3, 2, 4)),
+        ("CubicMeshPDENonStatio", mk_ns, {"n_start": 16, "nt_start": 20}, 'inside_batch', ('key', 'omega', 'curr_omega_idx'), 5, 64,
+         (5, 2)),
+        ("CubicMeshPDENonStatio", mk_ns, {"n_start": 16, "nt_start": 20}, 'temporal_batch', ('key', 'times', 'curr_time_idx'), 7, 60,
+         (7,)),
+    ]
+    for cname, mk, kw, method, fields, b, n, sizes in cases:
+        for user in (False, True):
+            def go(cname=cname, mk=mk, kw=kw, method=method, fields=fields, b=b, n=n, sizes=sizes, user=user):
+                gen = mk(**(kw if user else {}))
+                sym = {fields[1]: Sym(fields[1]), fields[2]: K('idx')}
+                gen = gen.replace_fields(sym)
+                return check_draw(gen, method, fields, b, n, None, sizes, f"{cname}.{method}")
+            chk.run(rule_id, f"{MOD}:{cname}.{method}", {"start_count_given": user, **(kw if user else {})}, go,
+                    construct=f"{cname}.{method} after __post_init__ (no RAR)")
 
 
 def run_initial_index(chk, G, rule_id):
